@@ -223,6 +223,7 @@ func exec(src string, budget int, keep bool) *outcome {
 		o.dbg = &stepDbg{budget: int64(budget)}
 		o.erp.Debugger = o.dbg
 	}
+	second := false
 	o.panicked = hx.Guard(func() {
 		var ast *parser.ASTNode
 		if ast, o.perr = parser.ParseWithRuntime("c06", src, o.erp); o.perr != nil {
@@ -233,7 +234,19 @@ func exec(src string, budget int, keep bool) *outcome {
 		}
 		o.global = scope.NewScope(scope.GlobalScope)
 		o.val, o.err = ast.Runtime.Eval(o.global, make(map[string]interface{}), o.erp.NewThreadID())
+		if o.exhausted() || o.sawCycle() {
+			return
+		}
+		// the same tree once more in a fresh scope (every node is evaluated a second time, as in a
+		// loop or a function called twice): whatever the first evaluation left in the nodes must not
+		// make the second one panic; its value is not judged
+		second = true
+		ast.Runtime.Eval(scope.NewScope(scope.GlobalScope), make(map[string]interface{}), o.erp.NewThreadID())
 	})
+	if o.panicked != nil && second {
+		o.panicked.Msg = "(in the SECOND evaluation of the same tree, in a fresh scope) " + o.panicked.Msg
+		o.panicked.Sig = "again:" + o.panicked.Sig
+	}
 	if o.panicked == nil {
 		o.checkWorkers()
 	}
